@@ -191,6 +191,21 @@ func (w *gzipResponseWriter) Write(b []byte) (int, error) {
 	return n, err
 }
 
+// Flush sends what has been written so far. Like net/http's own Flush it
+// commits the header first if that has not happened yet - through WriteHeader
+// above, so that a handler that flushes before it writes still gets the header
+// of the compressed response it is going to produce - and it empties the
+// compressor's buffer before flushing the connection.
+func (w *gzipResponseWriter) Flush() {
+	if !w.statusCodeWritten {
+		w.WriteHeader(http.StatusOK)
+	}
+	if gzWriter, ok := w.internalWriter.(*gzip.Writer); ok {
+		gzWriter.Flush()
+	}
+	w.ResponseWriterWrapper.Flush()
+}
+
 //Writer use a lazy way to initialize Writer
 func (w *gzipResponseWriter) Writer() io.Writer {
 	if w.internalWriter == nil {
